@@ -57,7 +57,7 @@ func vfMeasureCalib() map[string]bool {
 // (several undefined numbers in every modelled enum field).
 func vfUndefinedEnumPanics() (panics bool) {
 	for _, v := range []int32{-1, 9, 99, 1 << 30} {
-		for f := 0; f < 4; f++ {
+		for f := 0; f < 5; f++ {
 			func() {
 				defer func() {
 					if recover() != nil {
@@ -80,12 +80,20 @@ func vfEnumProbe(field int, v int32) *aftpb.Afts {
 		return &aftpb.Afts{NextHop: []*aftpb.Afts_NextHopKey{{Index: 1, NextHop: &aftpb.Afts_NextHop{DecapsulateHeader: e}}}}
 	case 2:
 		return &aftpb.Afts{Ipv4Entry: []*aftpb.Afts_Ipv4EntryKey{{Prefix: "1.1.1.1/32", Ipv4Entry: &aftpb.Afts_Ipv4Entry{DecapsulateHeader: e}}}}
+	case 3:
+		return &aftpb.Afts{LabelEntry: []*aftpb.Afts_LabelEntryKey{{Label: &aftpb.Afts_LabelEntryKey_LabelOpenconfigmplstypesmplslabelenum{
+			LabelOpenconfigmplstypesmplslabelenum: enums.OpenconfigMplsTypesMplsLabelEnum(v)}, LabelEntry: &aftpb.Afts_LabelEntry{}}}}
 	}
 	return &aftpb.Afts{Ipv6Entry: []*aftpb.Afts_Ipv6EntryKey{{Prefix: "2001:db8::/32", Ipv6Entry: &aftpb.Afts_Ipv6Entry{DecapsulateHeader: e}}}}
 }
 
 // vfEncapDefined: the numbers OpenconfigAftTypesEncapsulationHeaderType defines (0 = unset .. 8).
 func vfEncapDefined(v int32) bool { return vfAnd(v >= 0, v <= 8) }
+
+// vfLabelEnumDefined: the numbers OpenconfigMplsTypesMplsLabelEnum defines (0-4, 8, 9).
+func vfLabelEnumDefined(v int32) bool {
+	return vfOr(vfAnd(v >= 0, v <= 4), vfOr(v == 8, v == 9))
+}
 
 // vfModelUndefinedEnum: what the real pipeline does with an undefined enum number (calibrated).
 func vfModelUndefinedEnum() error {
@@ -137,6 +145,13 @@ func vfModelCandidateRIB(a *aftpb.Afts) (*aft.RIB, error) {
 	for _, e := range a.Ipv6Entry {
 		if e != nil && e.Ipv6Entry != nil && !vfEncapDefined(int32(e.Ipv6Entry.DecapsulateHeader)) {
 			return nil, vfModelUndefinedEnum()
+		}
+	}
+	for _, e := range a.LabelEntry {
+		if e != nil {
+			if le, ok := e.Label.(*aftpb.Afts_LabelEntryKey_LabelOpenconfigmplstypesmplslabelenum); ok && !vfLabelEnumDefined(int32(le.LabelOpenconfigmplstypesmplslabelenum)) {
+				return nil, vfModelUndefinedEnum()
+			}
 		}
 	}
 	for _, e := range a.NextHop {
